@@ -336,7 +336,9 @@ JConvertPlan(e, st) ==
       agents == e.agents
       joint == [i \in DOMAIN e.out.joint |-> MembersOfJson(e.out.joint[i])]
       adm(dv) == IF ~SeqRun(D, u, seqPlan, init, Eps, dv).ok THEN TRUE        \* not a valid sequential plan: outside C15
-                 ELSE ~Has(e.out, "exc") /\ ValidConversion(D, u, seqPlan, joint, agents, init, Eps, dv)
+                 ELSE IF Has(e.out, "exc")
+                      THEN "ConvertNonCommuting" \in dv /\ NonCommutingWindow(D, u, seqPlan, agents, init, Eps, dv \ {"ConvertNonCommuting"})
+                      ELSE ValidConversion(D, u, seqPlan, joint, agents, init, Eps, dv)
   IN  WithDevs(adm, IF Has(e.out, "exc") THEN "ConvertPlan:exception" ELSE "ConvertPlan:invalid-conversion", st)
 
 ----------------------------------------------------------------------------
@@ -426,6 +428,18 @@ NumClose(v1, v2, digits) ==
   ELSE IF ~OnTickGrid(v1) \/ ~OnTickGrid(v2) THEN FALSE
   ELSE IF digits >= 5 THEN Ticks(v1) = Ticks(v2)
   ELSE 2 * Abs(Ticks(v1) - Ticks(v2)) <= Pow10(5 - digits)
+
+\* a printed value o (digits decimals) against a state value s that need not lie on the tick
+\* grid (35.0390625 = 4485/128 printed as 35.0391): |o - s| <= half a unit of the last decimal,
+\* computed by cross multiplication when that stays inside 32 bits, admitted otherwise
+PrintClose(o, s, digits) ==
+  IF o = s THEN TRUE
+  ELSE IF OnTickGrid(o) /\ OnTickGrid(s) THEN NumClose(o, s, digits)
+  ELSE IF s[2] = 0 \/ o[2] = 0 THEN TRUE
+  ELSE IF Abs(o[1]) > 2000000000 \div s[2] \/ Abs(s[1]) > 2000000000 \div o[2] \/ o[2] > 2000000000 \div s[2] THEN TRUE
+  ELSE LET num == Abs(o[1] * s[2] - s[1] * o[2])
+           den == o[2] * s[2]
+       IN  IF num > 2000000000 \div (2 * Pow10(digits)) THEN FALSE ELSE 2 * Pow10(digits) * num <= den
 
 RECURSIVE ExprClose(_, _, _)
 ExprClose(a, b, digits) ==
@@ -520,16 +534,22 @@ JSimplify(e, st) ==
   LET D == st[e.d].D
       a == ActionNamed(D, e.act)
       src == CmpsOfF(a.pre)
-      obs == {FormulaOfTree(x) : x \in Range(e.out.trees)}
-      slack == IF e.exact THEN RZero ELSE Norm(200, Pow10(IF e.digits > 5 THEN 5 ELSE e.digits))
       \* Known deviation "ConstantConditionPrinted": when an equality fixes the value of a fluent,
       \* a condition over that fluent alone is printed as a comparison of two constants, e.g.
-      \* (<= 4 7), which the library's own reader rejects (it is not omitted as implied).
+      \* (<= 4 7) - or, when the condition was not linear, with the word `none' for the side that
+      \* lost its fluent: (> none 2.25) - which the library's own reader rejects (it is not
+      \* omitted as implied).  Such a line has no meaning; the other lines are judged as usual.
+      IsNoneTree(x) == x.t = "l" /\ Len(x.c) = 3 /\ \E i \in {2, 3} : x.c[i].t = "s" /\ x.c[i].v = "none"
+      noneTrees == {x \in Range(e.out.trees) : IsNoneTree(x)}
+      obs == {FormulaOfTree(x) : x \in Range(e.out.trees) \ noneTrees}
+      slack == IF e.exact THEN RZero ELSE Norm(200, Pow10(IF e.digits > 5 THEN 5 ELSE e.digits))
+      hasEq == \E c \in src : c.op = "="
       constPrinted == \E c \in obs : c.k = "cmp" /\ FluentsOfExpr(c.l) \cup FluentsOfExpr(c.r) = {}
-      adm(dv) == e.out.reparse_ok \/ ("ConstantConditionPrinted" \in dv /\ constPrinted)
+      adm(dv) == \/ noneTrees = {} /\ e.out.reparse_ok
+                 \/ "ConstantConditionPrinted" \in dv /\ hasEq /\ (constPrinted \/ noneTrees # {})
   IN  IF Has(e.out, "exc") THEN Fail("Simplify:exception:" \o e.out.exc, st)
       ELSE IF ~(\A c \in obs : c.k = "cmp" /\ OnlyBinary(c.l) /\ OnlyBinary(c.r)) THEN Fail("Simplify:not-binary-arithmetic", st)
-      ELSE IF Cardinality(FluentTerms(src \cup obs)) <= 4 /\ ~CondEquiv(src, obs, slack) THEN Fail("Simplify:not-equivalent", st)
+      ELSE IF noneTrees = {} /\ Cardinality(FluentTerms(src \cup obs)) <= 4 /\ ~CondEquiv(src, obs, slack) THEN Fail("Simplify:not-equivalent", st)
       ELSE WithDevs(adm, "Simplify:library-cannot-reread", st)
 
 ----------------------------------------------------------------------------
@@ -619,7 +639,7 @@ JFluentConditions(e, st) ==
   IN  IF Has(e.out, "exc") \/ ~wellShaped THEN Fail("FluentConditions:shape", st)
       ELSE IF /\ {<<obs[i].l.f, obs[i].l.a>> : i \in DOMAIN obs} = DOMAIN s.fl
               /\ Len(obs) = Cardinality(DOMAIN s.fl)
-              /\ \A i \in DOMAIN obs : NumClose(obs[i].r.v, s.fl[<<obs[i].l.f, obs[i].l.a>>], e.digits)
+              /\ \A i \in DOMAIN obs : PrintClose(obs[i].r.v, s.fl[<<obs[i].l.f, obs[i].l.a>>], e.digits)
            THEN Ok(st) ELSE Fail("FluentConditions:content", st)
 
 \* Domain.shallow_copy: the vocabulary and the action signatures, without the bodies
